@@ -226,6 +226,10 @@ pub struct Ledger {
     pub probe_start_ns: Option<u64>,
     /// the run hit the step cap before finishing
     pub truncated: bool,
+    /// scenario engines that do not drive a StunClient (C16 stream reassembly, ...) report here
+    pub custom: Vec<Violation>,
+    pub custom_log: Vec<String>,
+    pub custom_sigs: Vec<u64>,
 }
 
 impl Ledger {
